@@ -4,6 +4,10 @@ import cpu_props
 ID = 'C02'
 LEAN_MODULES = ['Py65.Props.C02']
 NAMESPACES = ['Py65.Props.C02', 'Py65.Proofs.HC', 'Py65.Proofs.H']
+# library helpers (CPython behaviour modelled in lean/Py65/Model/*Rt*.lean ...) that the generated code of these
+# modules calls, derived by scanning the Lean sources (harness/rtscan.py); validated against CPython on every run
+import rtcheck  # noqa: E402
+RT_HELPERS = rtcheck.helpers_for(LEAN_MODULES)
 EXPECTED_THEOREMS = ['Py65.Props.C02.C02_full', 'Py65.Props.C02.C02_partial']
 TRUSTED = ['Spec.Cpu / Spec.Isa (hand-written programming model, the oracle)',
            'translator harness/py2lean.py (Python subset -> Lean), validated on every run by exact-state comparison of the generated model with the real device',
